@@ -31,28 +31,26 @@ Not64(l)    == <<65535 - l[1], 65535 - l[2], 65535 - l[3], 65535 - l[4]>>
 FKey(l) == IF IsNegF64(l) THEN Not64(l) ELSE <<l[1], l[2], l[3], l[4] + 32768>>
 FLe(a, b) == LeU64(FKey(NormZero(a)), FKey(NormZero(b)))
 
-RECURSIVE FoldMinMax(_, _, _, _, _)
-\* returns <<min, max>> of column col of the per-point real values
-FoldMinMax(pts, col, k, mn, mx) ==
-    IF k > Len(pts) THEN <<mn, mx>>
-    ELSE LET x == pts[k][col]
-         IN FoldMinMax(pts, col, k + 1, IF FLe(x, mn) THEN x ELSE mn, IF FLe(mx, x) THEN x ELSE mx)
+\* <<min, max>> of column col over points lo..hi by halving (ties: the later point wins, as in a left fold). The halves
+\* are bound through singleton sets so that TLC evaluates each exactly once: operator arguments and LET definitions are
+\* lazy, and a left fold with accumulator arguments builds a chain of suspended comparisons that costs far more than
+\* linear time on 10^4..10^5 points.
+RECURSIVE MinMaxBy(_, _, _, _, _)
+MinMaxBy(pts, col, lo, hi, int) ==
+    IF lo = hi THEN LET x == IF int THEN ValLimbs(pts[lo][col]) ELSE pts[lo][col] IN <<x, x>>
+    ELSE LET mid == (lo + hi) \div 2
+         IN CHOOSE r \in { <<IF (IF int THEN LeS64(b[1], a[1]) ELSE FLe(b[1], a[1])) THEN b[1] ELSE a[1],
+                               IF (IF int THEN LeS64(a[2], b[2]) ELSE FLe(a[2], b[2])) THEN b[2] ELSE a[2]>> :
+                             a \in {MinMaxBy(pts, col, lo, mid, int)}, b \in {MinMaxBy(pts, col, mid + 1, hi, int)} } : TRUE
 
 \* `reals` : per point, per record, the real value as f64 limbs (for coordinate records) -- provided
 \* by the trace as a mechanical conversion (f32 -> f64 widening, integer * scale + offset)
 RealBounds(reals, col) ==
     IF Len(reals) = 0 THEN <<NoneV, NoneV>>
-    ELSE LET r == FoldMinMax(reals, col, 2, reals[1][col], reals[1][col])
-         IN <<SomeV(r[1]), SomeV(r[2])>>
-RECURSIVE FoldIntMinMax(_, _, _, _, _)
-FoldIntMinMax(pts, col, k, mn, mx) ==
-    IF k > Len(pts) THEN <<mn, mx>>
-    ELSE LET x == ValLimbs(pts[k][col])
-         IN FoldIntMinMax(pts, col, k + 1, IF LeS64(x, mn) THEN x ELSE mn, IF LeS64(mx, x) THEN x ELSE mx)
+    ELSE CHOOSE q \in { <<SomeV(r[1]), SomeV(r[2])>> : r \in {MinMaxBy(reals, col, 1, Len(reals), FALSE)} } : TRUE
 IntBounds(pts, col) ==
     IF Len(pts) = 0 THEN <<NoneV, NoneV>>
-    ELSE LET r == FoldIntMinMax(pts, col, 2, ValLimbs(pts[1][col]), ValLimbs(pts[1][col]))
-         IN <<SomeV(r[1]), SomeV(r[2])>>
+    ELSE CHOOSE q \in { <<SomeV(r[1]), SomeV(r[2])>> : r \in {MinMaxBy(pts, col, 1, Len(pts), TRUE)} } : TRUE
 
 ColOf(proto, n) == CHOOSE i \in 1..Len(proto) : IsStd(proto[i]) /\ proto[i].name = n
 \* numeric equality of optional f64 limbs (-0 = +0)
